@@ -55,3 +55,12 @@ shutil.copy('/repo/data/suffix.json', 'tiny_db/suffix.json')
 json.dump({"rss": "ar.`es.`es", "aes": "eyas", "sa": "sha", "are": "are", "ser": "shera", "asr": "asOr", "ase": "asche"},
           open('tiny_db/autocorrect.json','w'), ensure_ascii=False, sort_keys=True)
 print('tiny words', sum(len(v) for v in tiny.values()))
+
+# micro_db: minimal data directory for the C-ABI explorer (context creation under AddressSanitizer)
+os.makedirs('micro_db', exist_ok=True)
+micro = {t: [w for w in dic[t] if len(w) <= 2][:12] for t in dic}
+json.dump(micro, open('micro_db/dictionary.json','w'), ensure_ascii=False, sort_keys=True)
+sfx = json.load(open('/repo/data/suffix.json'))
+json.dump({k: sfx[k] for k in sorted(sfx) if len(k) <= 2}, open('micro_db/suffix.json','w'), ensure_ascii=False, sort_keys=True)
+json.dump({"ak": "ek", "k:": "kO"}, open('micro_db/autocorrect.json','w'), ensure_ascii=False, sort_keys=True)
+print('micro words', sum(len(v) for v in micro.values()))
